@@ -110,18 +110,33 @@ def cmd_check(args):
 
 
 def cmd_replay(args):
+    from tcv import findings
+
     data = json.load(open(args.path))
     pid = data['property']
     mod = _module(pid)
+    known = findings.load(pid)
     outs = []
     for i in range(2):
-        vs = mod.replay(data['case'])
+        try:
+            vs = mod.replay(data['case'])
+        except HarnessError as e:
+            if 'divergence' in str(e) or 'out of range' in str(e):
+                # a schedule / history recorded on another tree need not be realisable on this one
+                print(f'replay of {args.path}: the recorded schedule is not realisable on this tree ({str(e)[:120]}); nothing to report')
+                return 0
+            raise
         outs.append([(v.signature, v.what) for v in vs])
     if outs[0] != outs[1]:
         print(f'HARNESS-ERROR replay not deterministic: {outs}', file=sys.stderr)
         return 2
-    if outs[0]:
-        for sig, what in outs[0]:
+    unknown = [(s, w) for s, w in outs[0] if findings.match(known, s) is None]
+    for s, w in outs[0]:
+        e = findings.match(known, s)
+        if e is not None:
+            print(f'KNOWN-FINDING: property={pid} {e["id"]} {e["what"][:200]}')
+    if unknown:
+        for sig, what in unknown:
             print(f'VIOLATION property={pid} replay={args.path}\n  signature: {sig}\n  what: {what[:2000]}')
         return 1
     print(f'replay of {args.path}: property held')
